@@ -923,9 +923,16 @@ func TestVerif_C22_History(t *testing.T) {
 		cfg.DisableLedgerLRUCache = c22R(t, "lru", 0, 9) != 0
 		cfg.VerifiedTranscationsCacheSize = 2000
 		cfg.TxPoolSize = 1000 // OpenLedger sizes the verified-txn cache to at least TxPoolSize
+		// No background tracker commits while the history runs: reads from this test would race with the commit
+		// goroutine on the shared-cache in-memory sqlite ("database table is locked"). Nothing is committable with
+		// a lookback longer than the history; the database path is exercised by an explicit, awaited flush at the end.
+		cfg.MaxAcctLookback = 100
 		t0 := time.Now()
 		l := newSimpleLedgerWithConsensusVersion(tt, gen, cv, cfg, simpleLedgerLogger(quiet))
 		defer l.Close()
+		l.trackers.mu.Lock()
+		l.trackers.lastFlushTime = time.Now().Add(24 * time.Hour)
+		l.trackers.mu.Unlock()
 		proto := config.Consensus[cv]
 
 		n := c22R(t, "accounts", 5, 8)
@@ -1077,6 +1084,13 @@ func TestVerif_C22_History(t *testing.T) {
 				break
 			}
 			w.checkLedger(t, tt, l, vk, fmt.Sprintf("after block %d", b+1))
+		}
+		if !abandoned && c22R(t, "flush", 0, 3) == 0 {
+			// push everything into the database and read it all back through the committed path
+			commitRoundLookback(0, l)
+			l.trackers.waitAccountsWriting()
+			w.checkLedger(t, tt, l, vk, "after flushing to the database")
+			vk.Label("flushed-to-db")
 		}
 		vk.Add("ms_history", time.Since(t0).Milliseconds())
 		vk.Add("groups", int64(len(rendered)/2))
